@@ -16,17 +16,16 @@ namespace Ord.Entry
 
 /-! ## Sat ranges (`impl Entry for SatRange`) -/
 
+/-- Inside the packing's guard (`start < 2^51`, `start ≤ end`, `end - start < 2^37`) a range
+stores to 11 bytes that load back to the same range. -/
 theorem c35_sat_range_roundtrip (r : Nat × Nat) (h : satRangeGuard r) :
-    ∃ bs, satRangeStore r = .ok bs ∧ bs.length = 11 ∧ satRangeLoad bs = r := by
-  obtain ⟨h1, h2, h3⟩ := h
-  refine ⟨leBytes 11 (r.1 ||| ((r.2 - r.1) <<< 51)), ?_, by simp, ?_⟩
-  · unfold satRangeStore; simp [Nat.not_lt.mpr h2]
-  · rw [satRangeLoad_leBytes, pack_eq_add _ _ h1]
-    have c : (2 : Nat) ^ 51 = 2251799813685248 := by decide
-    have d : (2 : Nat) ^ 37 = 137438953472 := by decide
-    rw [c, d] at *
-    ext <;> simp <;> omega
+    ∃ bs, satRangeStore r = .ok bs ∧ bs.length = 11 ∧ satRangeLoad bs = r :=
+  satRangeStore_ok r h
 
+example : satRangeGuard (2099999992690000, 2099999997690000) := by decide
+
+/-- Every range inside the supply that is no longer than a block subsidy is inside the guard
+(with room: the length even fits the 33 bits the source comment mentions). -/
 theorem c35_sat_range_guard_of_supply (r : Nat × Nat) (h1 : r.1 ≤ r.2) (h2 : r.2 ≤ supply)
     (h3 : r.2 - r.1 ≤ maxSubsidy) : satRangeGuard r ∧ r.2 - r.1 < 2 ^ 33 := by
   unfold satRangeGuard supply maxSubsidy at *
@@ -35,12 +34,26 @@ theorem c35_sat_range_guard_of_supply (r : Nat × Nat) (h1 : r.1 ≤ r.2) (h2 : 
   have e : (2 : Nat) ^ 33 = 8589934592 := by decide
   rw [c, d, e]; omega
 
+/-- So the clause of the property as stated: every sat range inside the supply, no longer than a
+block subsidy, reads back equal to what was written. -/
+theorem c35_sat_range_supply_roundtrip (r : Nat × Nat) (h1 : r.1 ≤ r.2) (h2 : r.2 ≤ supply)
+    (h3 : r.2 - r.1 ≤ maxSubsidy) :
+    ∃ bs, satRangeStore r = .ok bs ∧ bs.length = 11 ∧ satRangeLoad bs = r :=
+  satRangeStore_ok r (c35_sat_range_guard_of_supply r h1 h2 h3).1
+
+example : (0 : Nat) ≤ 5000000000 ∧ 5000000000 ≤ supply ∧ 5000000000 - 0 ≤ maxSubsidy := by
+  unfold supply maxSubsidy; decide
+
+/-- `store` panics (checked `-`, dev profile) exactly on reversed ranges; it has no other failure. -/
 theorem c35_sat_range_store_panics_iff (r : Nat × Nat) :
     (∃ s, satRangeStore r = .panic s) ↔ r.2 < r.1 := by
   unfold satRangeStore
   split <;> simp [*]
 
-/-- outside the guard: what is read back, for every pair of u64 with start ≤ end -/
+/-- Outside the guard nothing is asserted by the code: for *every* `start ≤ end` the bytes written
+are the low 88 bits of `start | (end-start) << 51`, and what is read back is that number's low 51
+bits and the following 37 bits — a silent truncation / bit mixing when `start ≥ 2^51` or
+`end - start ≥ 2^37`. -/
 theorem c35_sat_range_general (r : Nat × Nat) (h : r.1 ≤ r.2) :
     ∃ bs, satRangeStore r = .ok bs ∧
       satRangeLoad bs =
@@ -50,6 +63,8 @@ theorem c35_sat_range_general (r : Nat × Nat) (h : r.1 ≤ r.2) :
   · unfold satRangeStore; simp [Nat.not_lt.mpr h]
   · rw [satRangeLoad_leBytes]
 
+/-- Witness that the guard is needed (not reachable inside the supply): `(2^51, 2^51+1)` is stored
+without complaint and reads back as `(0, 1)`. -/
 theorem c35_sat_range_outside_guard_fails :
     satRangeStore (2 ^ 51, 2 ^ 51 + 1) = .ok (leBytes 11 (2^51 ||| (1 <<< 51))) ∧
     satRangeLoad (leBytes 11 (2^51 ||| (1 <<< 51))) = (0, 1) := by
@@ -58,116 +73,65 @@ theorem c35_sat_range_outside_guard_fails :
   · rw [satRangeLoad_leBytes]; decide
 
 
+/-! ## Consensus layouts (`Header`, `OutPoint`, `SatPoint`, `Txid`)
+
+The theorems are about the modelled byte layout (which the harness compares byte-for-byte with
+rust-bitcoin's encoders on every run); rust-bitcoin itself is trusted. -/
+
+/-- Every header (any i32 version, any two 32-byte hashes, any u32 time / bits / nonce) stores to
+80 bytes that load back to the same header. -/
 theorem c35_header_roundtrip (h : Header) (wf : h.wf) :
-    (headerStore h).length = 80 ∧ headerLoad (headerStore h) = h := by
-  obtain ⟨v1, v2, hp, hm, ht, hb, hn⟩ := wf
-  have p4 : (256 : Nat) ^ 4 = 2 ^ 32 := by decide
-  constructor
-  · simp [headerStore, hp, hm]
-  · cases h with
-    | mk version prev merkle time bits nonce =>
-      simp only at *
-      have hv : (leBytes 4 (i32Bits version)).length = 4 := by simp
-      have s : headerStore ⟨version, prev, merkle, time, bits, nonce⟩ =
-          leBytes 4 (i32Bits version) ++ (prev ++ (merkle ++ (leBytes 4 time ++ (leBytes 4 bits ++ leBytes 4 nonce)))) := by
-        simp [headerStore]
-      unfold headerLoad
-      rw [s]
-      congr
-      · rw [take_append_len _ _ 4 hv, leVal_leBytes_of_lt _ _ (i32Bits_lt _)]
-        exact i32OfBits_i32Bits _ v1 v2
-      · rw [drop_append_len _ _ 4 hv, take_append_len _ _ 32 hp]
-      · rw [drop_append_add _ _ 4 32 hv, drop_append_len _ _ 32 hp, take_append_len _ _ 32 hm]
-      · rw [drop_append_add _ _ 4 64 hv, drop_append_add _ _ 32 32 hp, drop_append_len _ _ 32 hm,
-          take_append_len _ _ 4 (by simp), leVal_leBytes_of_lt _ _ (by omega)]
-      · rw [drop_append_add _ _ 4 68 hv, drop_append_add _ _ 32 36 hp, drop_append_add _ _ 32 4 hm,
-          drop_append_len _ _ 4 (by simp),
-          take_append_len _ _ 4 (by simp), leVal_leBytes_of_lt _ _ (by omega)]
-      · rw [drop_append_add _ _ 4 72 hv, drop_append_add _ _ 32 40 hp, drop_append_add _ _ 32 8 hm,
-          drop_append_add _ _ 4 4 (by simp), drop_append_len _ _ 4 (by simp),
-          List.take_of_length_le (by simp), leVal_leBytes_of_lt _ _ (by omega)]
+    (headerStore h).length = 80 ∧ headerLoad (headerStore h) = h :=
+  header_roundtrip h wf
 
+example : Header.wf ⟨-1, List.replicate 32 0xff, List.replicate 32 7, 4294967295, 0, 1⟩ := by
+  unfold Header.wf; decide
+
+/-- Every outpoint (32-byte txid, u32 vout) stores to 36 bytes that load back equal. -/
 theorem c35_outpoint_roundtrip (o : OutPoint) (wf : o.wf) :
-    (outPointStore o).length = 36 ∧ outPointLoad (outPointStore o) = o := by
-  obtain ⟨ht, hv⟩ := wf
-  have p4 : (256 : Nat) ^ 4 = 2 ^ 32 := by decide
-  cases o with
-  | mk txid vout =>
-    simp only at *
-    constructor
-    · simp [outPointStore, ht]
-    · unfold outPointLoad outPointStore
-      congr
-      · exact take_append_len _ _ 32 ht
-      · rw [drop_append_len _ _ 32 ht, List.take_of_length_le (by simp),
-          leVal_leBytes_of_lt _ _ (by omega)]
+    (outPointStore o).length = 36 ∧ outPointLoad (outPointStore o) = o :=
+  outpoint_roundtrip o wf
 
+/-- Every satpoint (outpoint, u64 offset) stores to 44 bytes that load back equal. -/
 theorem c35_satpoint_roundtrip (s : SatPoint) (wf : s.wf) :
-    (satPointStore s).length = 44 ∧ satPointLoad (satPointStore s) = s := by
-  obtain ⟨ho, hoff⟩ := wf
-  have p8 : (256 : Nat) ^ 8 = 2 ^ 64 := by decide
-  obtain ⟨hl, hr⟩ := c35_outpoint_roundtrip s.outpoint ho
-  cases s with
-  | mk outpoint offset =>
-    simp only at *
-    constructor
-    · simp [satPointStore, hl]
-    · unfold satPointLoad satPointStore
-      congr
-      · rw [take_append_len _ _ 36 hl]; exact hr
-      · rw [drop_append_len _ _ 36 hl, List.take_of_length_le (by simp),
-          leVal_leBytes_of_lt _ _ (by omega)]
+    (satPointStore s).length = 44 ∧ satPointLoad (satPointStore s) = s :=
+  satpoint_roundtrip s wf
+
+example : SatPoint.wf ⟨⟨List.replicate 32 0, 4294967295⟩, 18446744073709551615⟩ := by
+  unfold SatPoint.wf OutPoint.wf; decide
 
 theorem c35_txid_roundtrip (t : List UInt8) : txidLoad (txidStore t) = t := rfl
 
-theorem c35_inscription_id_roundtrip (i : InscriptionId) (h : i.txid.length = 32) :
-    inscriptionIdLoad (inscriptionIdStore i) = i := by
-  cases i with
-  | mk txid index =>
-    simp only at h
-    unfold inscriptionIdLoad inscriptionIdStore
-    congr
-    simp only
-    rw [leBytes_leVal' 16 _ (by simp [h]), leBytes_leVal' 16 _ (by simp [h]), List.take_append_drop]
+/-! ## Tuple-valued entries -/
 
+/-- `InscriptionId` ↔ `(u128, u128, u32)`: every id (32-byte txid, any index) reads back. -/
+theorem c35_inscription_id_roundtrip (i : InscriptionId) (h : i.txid.length = 32) :
+    inscriptionIdLoad (inscriptionIdStore i) = i :=
+  inscription_id_roundtrip i h
+
+/-- … and the two halves written are genuine u128 values (nothing is cut by the column type). -/
 theorem c35_inscription_id_value_bounds (i : InscriptionId) (h : i.txid.length = 32) :
-    (inscriptionIdStore i).1 < 2 ^ 128 ∧ (inscriptionIdStore i).2.1 < 2 ^ 128 := by
-  have p : (256 : Nat) ^ 16 = 2 ^ 128 := by decide
-  unfold inscriptionIdStore
-  have a := leVal_lt (i.txid.take 16)
-  have b := leVal_lt (i.txid.drop 16)
-  have la : (i.txid.take 16).length = 16 := by simp [h]
-  have lb : (i.txid.drop 16).length = 16 := by simp [h]
-  rw [la] at a; rw [lb] at b
-  simp only; omega
+    (inscriptionIdStore i).1 < 2 ^ 128 ∧ (inscriptionIdStore i).2.1 < 2 ^ 128 :=
+  inscription_id_value_bounds i h
 
 theorem c35_rune_id_roundtrip (i : RuneId) : runeIdLoad (runeIdStore i) = i := rfl
 theorem c35_rune_roundtrip (r : Nat) : runeLoad (runeStore r) = r := rfl
 
+/-- Every rune entry — any integers, any 32-byte etching txid, symbol `None`/`Some`, terms `None`
+or `Some` with each of its six optional fields absent or present — reads back equal. -/
 theorem c35_rune_entry_roundtrip (e : RuneEntry) (h : e.etching.length = 32) :
-    runeEntryLoad (runeEntryStore e) = e := by
-  cases e with
-  | mk block burned divisibility etching mints number premine rune spacers symbol terms timestamp turbo =>
-    simp only at h
-    unfold runeEntryLoad runeEntryStore
-    congr
-    · simp only
-      have ht : (etching.drop 16).take 16 = etching.drop 16 :=
-        List.take_of_length_le (by simp [h])
-      rw [ht, leBytes_leVal' 16 _ (by simp [h]), leBytes_leVal' 16 _ (by simp [h]),
-        List.take_append_drop]
-    · cases terms <;> simp [termsLoad_termsStore]
+    runeEntryLoad (runeEntryStore e) = e :=
+  rune_entry_roundtrip e h
 
+example : (⟨1, 2, 3, List.replicate 32 9, 4, 5, 6, 7, 8, some 0x1F9FF,
+    some ⟨some 1, none, (some 2, none), (none, some 3)⟩, 10, true⟩ : RuneEntry).etching.length = 32 := by
+  decide
+
+/-- Every inscription entry (any charms, fee, height, number incl. negative, any number of
+parents, sat `None`/`Some`) reads back equal. -/
 theorem c35_inscription_entry_roundtrip (e : InscriptionEntry) (h : e.id.txid.length = 32) :
-    inscriptionEntryLoad (inscriptionEntryStore e) = e := by
-  cases e with
-  | mk charms fee height hidden id inscriptionNumber parents sat sequenceNumber timestamp =>
-    simp only at h
-    unfold inscriptionEntryLoad inscriptionEntryStore
-    congr
-    · exact c35_inscription_id_roundtrip id h
-    · cases sat <;> simp
-
+    inscriptionEntryLoad (inscriptionEntryStore e) = e :=
+  inscription_entry_roundtrip e h
 
 end Ord.Entry
 
@@ -188,7 +152,7 @@ theorem c35_utxo_build (f : Flags) (e : Entry) (hr : f.sats = true → e.ranges.
 (inscription index); no `unwrap`, conversion, checked arithmetic or slice index of `parse` panics.
 `hlen`: the entry fits in memory (lengths are `usize`). -/
 theorem c35_utxo_parse_build (f : Flags) (e : Entry) (bs : List UInt8)
-    (hv : e.value < 2 ^ 64) (hr : f.sats = true → e.ranges.length % 11 = 0)
+    (hv : f.sats = false → e.value < 2 ^ 64) (hr : f.sats = true → e.ranges.length % 11 = 0)
     (hb : build f e = .ok bs) (hlen : bs.length < 2 ^ 64) :
     parse f bs = .ok (view f e) := by
   rw [build_eq_layout f e hr] at hb
@@ -203,10 +167,153 @@ theorem c35_utxo_inscriptions_roundtrip (f : Flags) (e : Entry) (hi : f.inscript
   simp only [parseInscriptions, view, hi, if_true]
   exact parseInscriptionList_encode _ h
 
+/-- The output-entry clause in one statement.  For EVERY flag combination (`index_sats`,
+`index_addresses`, `index_inscriptions`), any list of sat ranges inside the packing guard, any
+value below 2^64, any script bytes and any list of inscriptions `(u32, u64)`: the ranges encode,
+the entry builds without tripping an assert, and — whenever the bytes fit in memory — parsing
+them back yields exactly the fields the flags say are stored: the same ranges (sat index) or the
+same value (no sat index), the same script (address index), the same inscriptions (inscription
+index). -/
+theorem c35_utxo_roundtrip (f : Flags) (value : Nat) (rs : List (Nat × Nat)) (script : List UInt8)
+    (ins : List (Nat × Nat))
+    (hv : value < 2 ^ 64) (hrs : ∀ r ∈ rs, satRangeGuard r)
+    (hins : ∀ i ∈ ins, i.1 < 2 ^ 32 ∧ i.2 < 2 ^ 64) :
+    ∃ rb bs, encodeRanges rs = .ok rb ∧ build f ⟨value, rb, script, ins⟩ = .ok bs ∧
+      (bs.length < 2 ^ 64 →
+        ∃ p, parse f bs = .ok p ∧
+          (f.sats = true → satRanges p = .ok rb ∧ decodeRanges rb = rs) ∧
+          (f.sats = false → totalValue p = .ok value) ∧
+          (f.addresses = true → scriptPubkey p = .ok script) ∧
+          (f.inscriptions = true → parseInscriptions p = .ok ins)) := by
+  obtain ⟨rb, h1, h2, h3⟩ := encodeRanges_ok rs hrs
+  have hr : f.sats = true → rb.length % 11 = 0 := fun _ => by omega
+  refine ⟨rb, layout f ⟨value, rb, script, ins⟩, h1, build_eq_layout f _ hr, fun hlen => ?_⟩
+  refine ⟨view f ⟨value, rb, script, ins⟩, parse_layout f _ (fun _ => hv) hr hlen, ?_, ?_, ?_, ?_⟩
+  · intro h; exact ⟨by simp [satRanges, view, h], h3⟩
+  · intro h; simp [totalValue, view, h]
+  · intro h; simp [scriptPubkey, view, h]
+  · intro h
+    simp only [parseInscriptions, view, h, if_true]
+    exact parseInscriptionList_encode _ hins
+
+/-- Which flags change the layout: the sat index switches the first field, the address index
+inserts the script, the inscription index appends the list (so `---` stores just the value). -/
+example (e : Entry) : layout ⟨false, false, false⟩ e = Varint.encode e.value := by simp [layout]
+example (e : Entry) : layout ⟨true, true, true⟩ e =
+    Varint.encode (e.ranges.length / 11) ++ e.ranges ++ (Varint.encode e.script.length ++ e.script) ++
+      encodeInscriptions e.inscriptions := by simp [layout]
+
 /-- Without the inscription index the list is absent (`parse_inscriptions` would `unwrap` a
 `None`): the flag decides, not the bytes. -/
 theorem c35_utxo_inscriptions_absent (f : Flags) (e : Entry) (hi : f.inscriptions = false) :
     parseInscriptions (view f e) = .panic "none" := by
   simp [parseInscriptions, view, hi]
+
+/-- The sat-range part of an output entry at the typed level: any list of ranges inside the guard
+encodes (through `SatRange::store`) to `11·n` bytes, which is what `push_sat_ranges` requires, and
+chunk-wise `SatRange::load` returns the list. -/
+theorem c35_sat_ranges_roundtrip (rs : List (Nat × Nat)) (h : ∀ r ∈ rs, satRangeGuard r) :
+    ∃ bs, encodeRanges rs = .ok bs ∧ bs.length % 11 = 0 ∧ decodeRanges bs = rs := by
+  obtain ⟨bs, h1, h2, h3⟩ := encodeRanges_ok rs h
+  exact ⟨bs, h1, by omega, h3⟩
+
+/-- `total_value` of what was parsed back: the pushed value without the sat index; with it, the
+sum of the range lengths — unless that sum does not fit a u64, in which case the checked `+=`
+panics (dev profile).  Ranges inside the supply cannot reach that. -/
+theorem c35_utxo_total_value (f : Flags) (e : Entry) :
+    (f.sats = false → totalValue (view f e) = .ok e.value) ∧
+    (f.sats = true → sumLens (decodeRanges e.ranges) < 2 ^ 64 →
+      totalValue (view f e) = .ok (sumLens (decodeRanges e.ranges))) ∧
+    (f.sats = true → 2 ^ 64 ≤ sumLens (decodeRanges e.ranges) →
+      totalValue (view f e) = .panic "add-overflow") := by
+  refine ⟨fun h => by simp [totalValue, view, h], fun h hs => ?_, fun h hs => ?_⟩
+  · simp only [totalValue, view, h, if_true]
+    have := sumDeltas_map (chunks11 e.ranges) 0 (by simpa [decodeRanges] using hs)
+    simpa [decodeRanges] using this
+  · simp only [totalValue, view, h, if_true]
+    exact sumDeltas_overflow (chunks11 e.ranges) 0 (by simpa [decodeRanges] using hs) (by decide)
+
+/-! ## Rune balance lists (`Index::encode_rune_balance` / `decode_rune_balance`) -/
+
+/-- One balance decodes from the front of any buffer that starts with its encoding, with the
+right length. -/
+theorem c35_balance_roundtrip (x : (Nat × Nat) × Nat) (h : balanceOk x) (rest : List UInt8) :
+    decodeBalance (encodeBalance x ++ rest) = .ok (x, (encodeBalance x).length) :=
+  decodeBalance_encode x h rest
+
+/-- A stored balance list (any length; ids up to `u64:u32`, amounts up to `u128`) reads back
+equal; none of the `unwrap`s of the readers' loop fires. -/
+theorem c35_balances_roundtrip (l : List ((Nat × Nat) × Nat)) (h : ∀ x ∈ l, balanceOk x) :
+    decodeBalances (encodeBalances l) = .ok l :=
+  decodeBalances_encode l h
+
+example : balanceOk ((2 ^ 64 - 1, 2 ^ 32 - 1), 2 ^ 128 - 1) := by unfold balanceOk; decide
+
+/-! ## Merging the entries of the lost-sats and unbound pseudo-outputs -/
+
+/-- Every entry the updater writes for a special outpoint is `Special` (empty script, zero value
+when sat ranges are not indexed, whole 11-byte chunks): `UtxoEntryBuf::empty`, an entry with one
+more inscription pushed, the lost-sat-ranges entry (`new; push_sat_ranges(lost);
+push_script_pubkey([])` = `build` of `⟨_, lost, [], []⟩`), and the merge of two such entries. -/
+theorem c35_special_entries (f : Flags) :
+    (Utxo.empty f = .ok (layout f ⟨0, [], [], []⟩) ∧ Special f ⟨0, [], [], []⟩) ∧
+    (∀ e i, Special f e → f.inscriptions = true →
+      layout f { e with inscriptions := e.inscriptions ++ [i] } = layout f e ++ encodeInscription i ∧
+      Special f { e with inscriptions := e.inscriptions ++ [i] }) ∧
+    (∀ lost : List UInt8, f.sats = true → lost.length % 11 = 0 →
+      build f ⟨0, lost, [], []⟩ = .ok (layout f ⟨0, lost, [], []⟩) ∧ Special f ⟨0, lost, [], []⟩) ∧
+    (∀ a b, Special f a → Special f b → Special f (mergeEntries a b)) := by
+  refine ⟨⟨empty_eq_layout f, rfl, fun _ => rfl, fun _ => rfl⟩, ?_, ?_, special_merge f⟩
+  · intro e i he hf
+    exact ⟨layout_push_inscription f e i hf, he⟩
+  · intro lost hs hl
+    refine ⟨build_eq_layout f _ (fun _ => hl), ?_⟩
+    unfold Special
+    exact ⟨rfl, fun _ => rfl, fun _ => hl⟩
+
+/-- `merged(a, b)` of two special-outpoint entries: none of its `assert!`s (value zero, scripts
+empty, builder state, flags) nor any panic of the two `parse` calls fires, and the result is the
+entry holding `a`'s then `b`'s sat ranges and `a`'s then `b`'s inscriptions (value 0, empty
+script) — for every flag combination. -/
+theorem c35_merged (f : Flags) (a b : Entry) (ha : Special f a) (hb : Special f b)
+    (hla : (layout f a).length < 2 ^ 64) (hlb : (layout f b).length < 2 ^ 64) :
+    merged f (layout f a) (layout f b) = .ok (layout f (mergeEntries a b)) :=
+  merged_layout f a b ha hb hla hlb
+
+/-- … so parsing the merged entry yields every range and inscription of both, in order. -/
+theorem c35_merged_parse (f : Flags) (a b : Entry) (m : List UInt8) (ha : Special f a)
+    (hb : Special f b) (hla : (layout f a).length < 2 ^ 64) (hlb : (layout f b).length < 2 ^ 64)
+    (hm : merged f (layout f a) (layout f b) = .ok m) (hlm : m.length < 2 ^ 64)
+    (hins : ∀ i ∈ a.inscriptions ++ b.inscriptions, i.1 < 2 ^ 32 ∧ i.2 < 2 ^ 64) :
+    parse f m = .ok (view f (mergeEntries a b)) ∧
+    (f.sats = true → satRanges (view f (mergeEntries a b)) = .ok (a.ranges ++ b.ranges)) ∧
+    (f.inscriptions = true →
+      parseInscriptions (view f (mergeEntries a b)) = .ok (a.inscriptions ++ b.inscriptions)) := by
+  rw [merged_layout f a b ha hb hla hlb] at hm
+  injection hm with hm
+  subst hm
+  have hs := special_merge f a b ha hb
+  refine ⟨parse_layout f _ (fun _ => by simp [mergeEntries]) hs.2.2 hlm, ?_, ?_⟩
+  · intro h; simp [satRanges, view, h, mergeEntries]
+  · intro h
+    simp only [parseInscriptions, view, h, if_true]
+    exact parseInscriptionList_encode _ hins
+
+/-- The asserts are live: merging entries that are *not* special panics (witness: a non-empty
+script with the address index). -/
+theorem c35_merged_assert_reachable :
+    merged ⟨false, true, false⟩ (layout ⟨false, true, false⟩ ⟨0, [], [0x51], []⟩)
+      (layout ⟨false, true, false⟩ ⟨0, [], [], []⟩) = .panic "assert-script" := by
+  have enc0 : Varint.encode 0 = [0] := by rw [Varint.encode]; simp
+  have enc1 : Varint.encode 1 = [1] := by rw [Varint.encode]; simp
+  have l1 : layout ⟨false, true, false⟩ ⟨0, [], [0x51], []⟩ = [0, 1, 0x51] := by
+    simp [layout, enc0, enc1]
+  have l2 : layout ⟨false, true, false⟩ ⟨0, [], [], []⟩ = [0, 0] := by
+    simp [layout, enc0]
+  rw [l1, l2]
+  simp [merged, parse, parseSats, parseScript, Varint.decode, Varint.decodeAux, slice, usizeLimit,
+    bind_ok, totalValue, assertThat, scriptPubkey]
+  rfl
+
 
 end Ord.Utxo
